@@ -228,6 +228,19 @@ pub fn run_c17(ctx: &mut Ctx) {
             sampled = true;
             continue
         }
+        let two_runs = input["runs"].as_array().map(|a| a.len() > 1).unwrap_or(false);
+        if two_runs {
+            // two runs × one request: > 4 000 interleavings each; sampled
+            let mut rng = ctx.rng.fork();
+            total += dir.random_schedules(&sc, 2_000, &mut rng, |res| {
+                check_run(ctx, &input, &sc, res);
+                if res.stuck.is_some() { fails += 1 }
+                fails < 3
+            });
+            sampled = true;
+            if fails >= 3 { break }
+            continue
+        }
         total += dir.explore(&sc, limit, |res| {
             check_run(ctx, &input, &sc, res);
             if res.stuck.is_some() { fails += 1 }
